@@ -239,6 +239,7 @@ pub fn run_history(c: &Case, cfg: &Cfg) -> Result<Obs, (String, Option<String>)>
             Ghost { atoms: u64, pairs: u64 },
             Other,
         }
+        #[allow(unused_assignments)]
         let mut exp = Exp::Other;
         let opname: String;
         // perform the call
